@@ -16,7 +16,7 @@ from hypothesis import strategies as st
 from vf import gen, prog, sem, oracles, mosek_env
 
 PROP = "C11"
-CASES = {"quick": 800, "thorough": 12000}
+CASES = {"quick": 800, "thorough": 30000}
 RULE = ("model templates of vf/gen.py (model / model_big / model_lmi_order / model_autostat) x dimension reduction x "
         "primal/dual, solved through CvxpyWrapper+CLARABEL and through MosekWrapper+stand-in. Non-trivial = finite on the "
         "cvxpy side and the model has an LMI, >= 100 scalar rows, a dimension-reduction option or leaves created during "
